@@ -3,6 +3,14 @@
 // wrapper around the PlatformSpecificFork/WaitPid seams, plus fully scripted fork/waitpid outcome
 // sequences (EINTR runs, errors, synthetic status words). Oracle: the statement's decision table
 // applied to the *recorded* status words, independently decoded.
+// Workload dimensions beyond the dying test itself: the kind of shell (TEST / IGNORE_TEST run with "run ignored"),
+// the route by which separate-process execution was requested (registry flag / per-shell flag), and a second
+// runAllTests() pass over the same registry. Two logical monitors replace the wall-clock watchdog for the two ways
+// the parent itself can be lost: (1) a deadly action that is about to be executed in the process that called
+// runAllTests() is not executed but reported (the test was not isolated: its death would have taken the runner down);
+// (2) the wait seam records the `options` of every wait: a stop event that arrives at a wait that did not ask for
+// stop notifications is reported (the kernel would never have delivered it: the event is lost and the wait blocks
+// forever on a child nobody continues) and then delivered anyway, so that the run ends.
 #include "verif.h"
 #include <csignal>
 #include <deque>
@@ -24,7 +32,17 @@ enum Where { W_CTOR, W_SETUP, W_BODY, W_TEARDOWN, W_DTOR, W_PRE, W_POST, W_N };
 static const char* WHERE[] = { "constructor", "setup", "body", "teardown", "destructor", "plugin-pre", "plugin-post" };
 enum Act { A_NONE, A_RAISE, A_EXIT, A_UEXIT, A_FAILCHECK, A_ABORT, A_SEGV, A_STOPS, A_PLUGIN_REPORTS, A_MANY_FAILURES, A_SLEEP_MS };
 static const char* ACT[] = { "none", "raise", "exit", "_exit", "failing-check", "abort", "null-write", "raise-SIGSTOP", "plugin-reports-failure", "many-non-terminating-failures", "sleep-ms" };
-struct Plan { int act = A_NONE; int where = W_BODY; int arg = 0; int after = A_NONE; int after_arg = 0; };   // `after`: what follows k stops
+struct Plan { int act = A_NONE; int where = W_BODY; int arg = 0; int after = A_NONE; int after_arg = 0; int ignored = 0; };   // `after`: what follows k stops; ignored: the shell is an IGNORE_TEST
+struct Cfg { bool run_ignored = false; bool via_shell_flag = false; int repeats = 1; };   // registry "run ignored"; separate process requested per shell instead of by the registry; runAllTests passes
+
+// The process that calls runAllTests(). A deadly action must never get to execute there: in separate-process mode the
+// test has to be in a child of its own. The action is skipped and reported instead of taking the harness down.
+static int g_parent_pid;
+static int g_deadly_in_parent; static int g_deadly_act, g_deadly_where, g_deadly_arg, g_deadly_ignored;
+static bool default_ignored(int sig) { return sig == SIGCHLD || sig == SIGURG || sig == SIGWINCH || sig == SIGCONT; }
+static bool deadly(int act, int arg) {
+    switch (act) { case A_RAISE: return !default_ignored(arg); case A_EXIT: case A_UEXIT: case A_ABORT: case A_SEGV: case A_STOPS: return true; default: return false; }
+}
 
 static void perform(int act, int arg) {
     switch (act) {
@@ -41,6 +59,10 @@ static void perform(int act, int arg) {
 }
 static void act_at(const Plan& p, int where) {
     if (p.where != where) return;
+    if (deadly(p.act, p.arg) && g_parent_pid && (int) getpid() == g_parent_pid) {
+        if (!g_deadly_in_parent++) { g_deadly_act = p.act; g_deadly_where = p.where; g_deadly_arg = p.arg; g_deadly_ignored = p.ignored; }
+        return;
+    }
     if (p.act == A_STOPS) { for (int i = 0; i < p.arg; i++) raise(SIGSTOP); perform(p.after, p.after_arg); }
     else perform(p.act, p.arg);
 }
@@ -62,6 +84,12 @@ public:
     PlanShell(const char* g, const char* n) : UtestShell(g, n, "plan.cpp", 10) {}
     Utest* createTest() CPPUTEST_OVERRIDE { act_at(plan_of(this), W_CTOR); return new PlanTest(plan_of(this)); }
 };
+// what IGNORE_TEST(G, n) { ... } generates: an IgnoredUtestShell whose createTest() makes the test object
+class PlanIgnoredShell : public IgnoredUtestShell {
+public:
+    PlanIgnoredShell(const char* g, const char* n) : IgnoredUtestShell(g, n, "plan.cpp", 20) {}
+    Utest* createTest() CPPUTEST_OVERRIDE { act_at(plan_of(this), W_CTOR); return new PlanTest(plan_of(this)); }
+};
 class PlanPlugin : public TestPlugin {
 public:
     PlanPlugin() : TestPlugin("PlanPlugin") {}
@@ -72,18 +100,34 @@ public:
 };
 
 // ------------------------------------------------------------------ recording / scripted seams
-struct WaitRec { int ret; int status; int err; };
-static std::vector<WaitRec> g_waits;            // every waitpid result seen by the code under test (all tests of the case)
-static std::vector<size_t> g_wait_mark;         // index into g_waits at each fork
+struct WaitRec { int ret; int status; int err; int opts; };
+struct ForkRec { size_t from; int test; };      // index into g_waits at the fork; index of the test that was running (-1 unknown)
+static std::vector<WaitRec> g_waits;            // every waitpid result seen by the code under test (all tests of the pass)
+static std::vector<ForkRec> g_wait_mark;        // one per fork
 static int g_forks = 0;
+static int g_current_test = -1;                 // set by the recording output when a test starts
+static int g_blind_stop_waits;                  // stop events that arrived at a wait that had not asked for them (no WUNTRACED)
+static int g_waits_after_stop, g_waits_after_stop_asking;   // waits issued after a stop was reported / of those, asking for stop notifications again
+static bool g_stop_seen_in_test;
 static int (*real_fork)(void);
 static int (*real_waitpid)(int, int*, int);
 
-static int rec_fork() { g_wait_mark.push_back(g_waits.size()); g_forks++; return real_fork(); }
+static void note_wait_options(int opts, bool result_is_stop) {
+    if (g_stop_seen_in_test) { g_waits_after_stop++; if (opts & WUNTRACED) g_waits_after_stop_asking++; }
+    if (result_is_stop) { g_stop_seen_in_test = true; if (!(opts & WUNTRACED)) g_blind_stop_waits++; }
+}
+static int rec_fork() { g_wait_mark.push_back(ForkRec{ g_waits.size(), g_current_test }); g_forks++; g_stop_seen_in_test = false; return real_fork(); }
 static int rec_waitpid(int pid, int* status, int opts) {
-    int r = real_waitpid(pid, status, opts);
-    WaitRec w; w.ret = r; w.status = (r > 0 && status) ? *status : 0; w.err = r < 0 ? errno : 0;
-    int saved = errno; g_waits.push_back(w); errno = saved;
+    // The wait is always made WITH stop notifications, so that a stop the code under test did not ask to hear about
+    // is seen here (and reported by the oracle) instead of blocking parent and harness for good.
+    int st = 0;
+    int r = real_waitpid(pid, &st, opts | WUNTRACED);
+    int saved = errno;
+    if (r > 0 && status) *status = st;
+    WaitRec w; w.ret = r; w.status = r > 0 ? st : 0; w.err = r < 0 ? saved : 0; w.opts = opts;
+    g_waits.push_back(w);
+    note_wait_options(opts, r > 0 && (st & 0xff) == 0x7f);
+    errno = saved;
     return r;
 }
 
@@ -92,13 +136,14 @@ struct Item { int kind; int val; };    // kind: 0 EINTR, 1 other errno(val), 2 s
 static std::vector<Item> g_script; static size_t g_pos; static int g_calls; static bool g_overrun; static int g_fork_result;
 static volatile sig_atomic_t g_sigcont;
 static void on_cont(int) { g_sigcont++; }
-static int scr_fork() { g_wait_mark.push_back(g_waits.size()); g_forks++; return g_fork_result; }
-static int scr_waitpid(int pid, int* status, int) {
+static int scr_fork() { g_wait_mark.push_back(ForkRec{ g_waits.size(), g_current_test }); g_forks++; g_stop_seen_in_test = false; return g_fork_result; }
+static int scr_waitpid(int pid, int* status, int opts) {
     g_calls++;
     if (g_calls > 1000 || g_pos >= g_script.size()) {      // script exhausted: end the loop and remember it
         g_overrun = true; if (status) *status = 0; return pid;
     }
     Item it = g_script[g_pos++];
+    note_wait_options(opts, it.kind == 2 && (it.val & 0xff) == 0x7f);     // the scripted kernel: a stop is only reported to a wait that asked for it
     if (it.kind == 0) { errno = EINTR; return -1; }
     if (it.kind == 1) { errno = it.val; return -1; }
     if (status) *status = it.val;
@@ -114,47 +159,82 @@ static int d_exitcode(int st) { return (st >> 8) & 0xff; }
 static bool d_stopped(int st) { return (st & 0xff) == 0x7f; }
 static bool d_signaled(int st) { return !d_exited(st) && !d_stopped(st) && (st & 0x7f) != 0x7f; }
 
+static const std::map<const UtestShell*, int>* g_shell_index;      // shell -> index of its plan, while a PlanRun is alive
 class RecOutput : public StringBufferTestOutput {
 public:
     std::vector<size_t> failures_at_end;
+    std::vector<int> started;                    // plan index of every test that was started, in order (-1 unknown)
+    void printCurrentTestStarted(const UtestShell& t) CPPUTEST_OVERRIDE {
+        g_current_test = -1;
+        if (g_shell_index) { auto it = g_shell_index->find(&t); if (it != g_shell_index->end()) g_current_test = it->second; }
+        started.push_back(g_current_test);
+    }
     void printCurrentTestEnded(const TestResult& res) CPPUTEST_OVERRIDE { failures_at_end.push_back(res.getFailureCount()); }
 };
 
 struct CaseRun {
-    std::vector<size_t> deltas;     // failures added per test (parent side)
+    std::vector<long> deltas;       // failures added per test (parent side), by plan index; -1: the test was never started/ended
     size_t total_failures = 0; size_t run_count = 0; bool is_failure = false; size_t ended = 0;
 };
 
-static CaseRun run_plans(const std::vector<Plan>& plans, bool scripted) {
-    CaseRun cr;
-    std::map<const UtestShell*, Plan> pm; g_plans = &pm;
-    std::vector<PlanShell*> shells;
+static void reset_pass_records() {
+    g_waits.clear(); g_wait_mark.clear(); g_forks = 0; g_current_test = -1;
+    g_blind_stop_waits = 0; g_waits_after_stop = 0; g_waits_after_stop_asking = 0; g_stop_seen_in_test = false;
+    g_deadly_in_parent = 0;
+}
+
+// a registry of scripted tests that can be run more than once (a later pass sees the shells as the first one left them)
+struct PlanRun {
+    std::map<const UtestShell*, Plan> pm; std::map<const UtestShell*, int> index;
+    std::vector<UtestShell*> shells;             // shells[i] runs plans[i]
     std::deque<std::string> names;
-    TestRegistry reg; reg.setCurrentRegistry(&reg);
-    PlanPlugin plugin; reg.installPlugin(&plugin);
-    for (size_t i = plans.size(); i-- > 0;) {
-        names.push_back("t" + std::to_string(i));
-        PlanShell* s = new PlanShell("G", names.back().c_str());
-        pm[s] = plans[i]; shells.push_back(s); reg.addTest(s);
+    TestRegistry reg; PlanPlugin plugin;
+    PlanRun(const std::vector<Plan>& plans, const Cfg& cfg) {
+        g_plans = &pm; g_shell_index = &index;
+        reg.setCurrentRegistry(&reg);
+        reg.installPlugin(&plugin);
+        shells.resize(plans.size());
+        for (size_t i = plans.size(); i-- > 0;) {      // addTest() prepends: run order is plans[0], plans[1], ...
+            names.push_back("t" + std::to_string(i));
+            UtestShell* s = plans[i].ignored ? (UtestShell*) new PlanIgnoredShell("G", names.back().c_str()) : (UtestShell*) new PlanShell("G", names.back().c_str());
+            pm[s] = plans[i]; index[s] = (int) i; shells[i] = s; reg.addTest(s);
+            if (cfg.via_shell_flag) s->setRunInSeperateProcess();          // what a test that asks for a process of its own does
+        }
+        if (!cfg.via_shell_flag) reg.setRunTestsInSeperateProcess();      // -p
+        if (cfg.run_ignored) reg.setRunIgnored();                         // -ri
     }
-    reg.setRunTestsInSeperateProcess();
-    g_waits.clear(); g_wait_mark.clear(); g_forks = 0;
-    real_fork = PlatformSpecificFork; real_waitpid = PlatformSpecificWaitPid;
-    PlatformSpecificFork = scripted ? scr_fork : rec_fork;
-    PlatformSpecificWaitPid = scripted ? scr_waitpid : rec_waitpid;
-    {
-        RecOutput out; TestResult res(out);
-        reg.runAllTests(res);
-        size_t prev = 0;
-        for (size_t f : out.failures_at_end) { cr.deltas.push_back(f - prev); prev = f; }
-        cr.total_failures = res.getFailureCount(); cr.run_count = res.getRunCount(); cr.is_failure = res.isFailure(); cr.ended = out.failures_at_end.size();
+    ~PlanRun() {
+        reg.removePluginByName("PlanPlugin");
+        reg.setCurrentRegistry(NULLPTR);
+        for (UtestShell* s : shells) delete s;
+        g_plans = nullptr; g_shell_index = nullptr;
     }
-    PlatformSpecificFork = real_fork; PlatformSpecificWaitPid = real_waitpid;
-    reg.removePluginByName("PlanPlugin");
-    reg.setCurrentRegistry(NULLPTR);
-    for (PlanShell* s : shells) delete s;
-    g_plans = nullptr;
-    return cr;
+    CaseRun run(bool scripted) {
+        CaseRun cr;
+        reset_pass_records();
+        real_fork = PlatformSpecificFork; real_waitpid = PlatformSpecificWaitPid;
+        PlatformSpecificFork = scripted ? scr_fork : rec_fork;
+        PlatformSpecificWaitPid = scripted ? scr_waitpid : rec_waitpid;
+        {
+            RecOutput out; TestResult res(out);
+            reg.runAllTests(res);
+            cr.deltas.assign(shells.size(), -1);
+            size_t prev = 0;
+            for (size_t k = 0; k < out.failures_at_end.size(); k++) {
+                size_t f = out.failures_at_end[k];
+                if (k < out.started.size() && out.started[k] >= 0 && (size_t) out.started[k] < cr.deltas.size()) cr.deltas[(size_t) out.started[k]] = (long) (f - prev);
+                prev = f;
+            }
+            cr.total_failures = res.getFailureCount(); cr.run_count = res.getRunCount(); cr.is_failure = res.isFailure(); cr.ended = out.failures_at_end.size();
+        }
+        PlatformSpecificFork = real_fork; PlatformSpecificWaitPid = real_waitpid;
+        return cr;
+    }
+};
+
+static CaseRun run_plans(const std::vector<Plan>& plans, bool scripted) {
+    PlanRun pr(plans, Cfg());
+    return pr.run(scripted);
 }
 
 // expected failures of one test from the recorded wait results, by the statement's table
@@ -175,7 +255,7 @@ static size_t expected_from_records(size_t from, size_t to, std::string& trace) 
 // what the statement demands from the *intent* of the scripted test alone (-1: depends on the kernel / exit handlers, judged from the records only)
 static int expected_from_intent(const Plan& p) {
     auto sig_effect = [](int sig) -> int {
-        if (sig == SIGCHLD || sig == SIGURG || sig == SIGWINCH || sig == SIGCONT) return 0;      // default action: ignore
+        if (default_ignored(sig)) return 0;                                                       // default action: ignore
         if (sig == SIGSTOP) return 1;                                                             // one stop event, then normal completion
         if (sig == SIGTSTP || sig == SIGTTIN || sig == SIGTTOU) return -1;                        // stops, or is discarded in an orphaned process group
         return 1;                                                                                 // terminates the child
@@ -198,7 +278,7 @@ static int expected_from_intent(const Plan& p) {
 }
 
 static std::string plan_json(const Plan& p) {
-    return vf::J().k("act", ACT[p.act]).k("where", WHERE[p.where]).k("arg", p.arg).k("after", ACT[p.after]).k("after_arg", p.after_arg).str();
+    return vf::J().k("act", ACT[p.act]).k("where", WHERE[p.where]).k("arg", p.arg).k("after", ACT[p.after]).k("after_arg", p.after_arg).k("shell", p.ignored ? "IGNORE_TEST" : "TEST").str();
 }
 static std::string plans_json(const std::vector<Plan>& ps) { std::vector<std::string> v; for (auto& p : ps) v.push_back(plan_json(p)); return vf::jarr(v); }
 
@@ -207,39 +287,93 @@ static void add_followers(vf::Rng& r, std::vector<Plan>& plans) {
     for (int i = 0; i < n; i++) { Plan f; if (r.chance(30)) { f.act = A_FAILCHECK; f.where = (int) r.below(3) + 1; } else if (r.chance(15)) { f.act = A_PLUGIN_REPORTS; f.where = r.chance(50) ? W_PRE : W_POST; } plans.push_back(f); }
 }
 
-static void judge_real(vf::Ctx& c, const std::vector<Plan>& plans, const char* keyclass) {
-    CaseRun cr = run_plans(plans, false);
-    size_t n = plans.size();
-    if (cr.ended != n || cr.run_count != n || (size_t) g_forks != n)
-        c.violation(std::string("later-tests-not-run:") + keyclass, "tests=" + std::to_string(n) + " ended=" + std::to_string(cr.ended) + " run=" + std::to_string(cr.run_count) + " forks=" + std::to_string(g_forks));
+static std::string cfg_json(const Cfg& g) { return vf::J().k("run_ignored", g.run_ignored).k("separate_process_requested_by", g.via_shell_flag ? "each shell" : "registry").k("passes", g.repeats).str(); }
+
+// the dimensions every real-fork section shares: shell kind per test, "run ignored", the route of the request, a second pass
+static void decorate(vf::Rng& r, std::vector<Plan>& plans, Cfg& cfg, bool first_must_run) {
+    for (Plan& p : plans) p.ignored = r.chance(25);
+    cfg.run_ignored = r.chance(60);
+    if (first_must_run && plans[0].ignored) cfg.run_ignored = true;       // the subject of the case has to happen
+    cfg.via_shell_flag = r.chance(15);
+    cfg.repeats = r.chance(20) ? 2 : 1;
+}
+
+static bool wait_range(int test, size_t& from, size_t& to) {
+    for (size_t k = 0; k < g_wait_mark.size(); k++) if (g_wait_mark[k].test == test) { from = g_wait_mark[k].from; to = k + 1 < g_wait_mark.size() ? g_wait_mark[k + 1].from : g_waits.size(); return true; }
+    from = to = 0; return false;
+}
+
+static void judge_pass(vf::Ctx& c, const std::vector<Plan>& plans, const Cfg& cfg, const CaseRun& cr, const char* keyclass, int pass) {
+    size_t n = plans.size(), n_run = 0;
+    auto runs = [&](size_t i) { return !plans[i].ignored || cfg.run_ignored; };
+    for (size_t i = 0; i < n; i++) if (runs(i)) n_run++;
+    std::string ctx = " [pass " + std::to_string(pass + 1) + " of " + std::to_string(cfg.repeats) + ", " + cfg_json(cfg) + "]";
+    c.count("real_children_forked", (uint64_t) g_forks);
+    c.count(pass ? "passes_judged_second" : "passes_judged_first");
+    if (g_deadly_in_parent) {
+        // the action was skipped: had it been executed, the process running the registry would have died (or stopped) with
+        // nothing recorded and no later test run
+        Plan d; d.act = g_deadly_act; d.where = g_deadly_where; d.arg = g_deadly_arg;
+        bool ign = g_deadly_ignored != 0;
+        c.violation(std::string("death-not-contained:test-executed-in-the-runner-process:") + keyclass + ":" + (ign ? "IGNORE_TEST-run-ignored" : "TEST"),
+                    std::to_string(g_deadly_in_parent) + " deadly action(s) were about to be executed in the process that called runAllTests() (first: " + ACT[d.act] + " " + std::to_string(d.arg) + " @" + WHERE[d.where] + "); forks=" + std::to_string(g_forks) + " of " + std::to_string(n_run) + " tests that run" + ctx);
+        return;
+    }
+    size_t seen = 0; for (size_t i = 0; i < n; i++) if (cr.deltas[i] >= 0) seen++;
+    if (cr.run_count != n_run || seen < n_run)
+        c.violation(std::string("later-tests-not-run:") + keyclass, "tests that must run=" + std::to_string(n_run) + " of " + std::to_string(n) + " started+ended=" + std::to_string(seen) + " run=" + std::to_string(cr.run_count) + " forks=" + std::to_string(g_forks) + ctx);
+    else if ((size_t) g_forks != n_run)
+        c.violation(std::string("test-not-given-a-child-process:") + keyclass, "tests that must run=" + std::to_string(n_run) + " forks=" + std::to_string(g_forks) + ctx);
     size_t total = 0;
-    for (size_t i = 0; i < n && i < cr.deltas.size() && i < g_wait_mark.size(); i++) {
-        size_t from = g_wait_mark[i], to = i + 1 < g_wait_mark.size() ? g_wait_mark[i + 1] : g_waits.size();
-        std::string trace;
+    for (size_t i = 0; i < n; i++) {
+        if (!runs(i)) { c.count("ignored_tests_not_run"); continue; }
+        if (plans[i].ignored) { c.count("ignored_tests_run_because_of_run_ignored"); if (deadly(plans[i].act, plans[i].arg)) c.count("ignored_tests_run_ignored_with_a_deadly_action"); }
+        if (cr.deltas[i] < 0) continue;                                 // reported above
+        size_t got = (size_t) cr.deltas[i];
+        size_t from, to; std::string trace;
+        bool forked = wait_range((int) i, from, to);
         size_t want = expected_from_records(from, to, trace);
-        total += want;
         // classify what was observed for evidence
         if (to > from) {
             const WaitRec& last = g_waits[to - 1];
             if (last.ret > 0 && d_signaled(last.status)) c.count("children_killed_by_signal");
             else if (last.ret > 0 && d_exited(last.status) && d_exitcode(last.status)) c.count("children_exit_nonzero");
             else if (last.ret > 0 && d_exited(last.status)) c.count("children_exit_zero");
-            for (size_t k = from; k < to; k++) if (g_waits[k].ret > 0 && d_stopped(g_waits[k].status)) c.count("stop_events");
+            size_t stops = 0;
+            for (size_t k = from; k < to; k++) if (g_waits[k].ret > 0 && d_stopped(g_waits[k].status)) { c.count("stop_events"); stops++; }
+            if (stops > 1) c.count("real_children_stopped_more_than_once");
         }
-        if (cr.deltas[i] != want) {
-            std::string kind = cr.deltas[i] < want ? "death-not-recorded" : "spurious-or-duplicate-failure";
-            c.violation(kind + ":" + keyclass + ":" + ACT[plans[i].act] + "@" + WHERE[plans[i].where], "test " + std::to_string(i) + " " + plan_json(plans[i]) + " wait results " + trace + " => expected " + std::to_string(want) + " failure(s), parent recorded " + std::to_string(cr.deltas[i]));
-        }
+        if (forked) {
+            total += want;
+            if (got != want) {
+                std::string kind = got < want ? "death-not-recorded" : "spurious-or-duplicate-failure";
+                c.violation(kind + ":" + keyclass + ":" + ACT[plans[i].act] + "@" + WHERE[plans[i].where], "test " + std::to_string(i) + " " + plan_json(plans[i]) + " wait results " + trace + " => expected " + std::to_string(want) + " failure(s), parent recorded " + std::to_string(got) + ctx);
+            }
+        } else total += got;                                            // not forked (reported above): nothing recorded to judge it by, the intent still applies
         int intent = expected_from_intent(plans[i]);
+        if (!forked && plans[i].act == A_MANY_FAILURES) intent = -1;      // "failed once however many checks failed" is a statement about a child
         if (intent >= 0) {
             c.count("intent_checks");
-            if ((size_t) intent != cr.deltas[i])
-                c.violation(std::string((size_t) intent > cr.deltas[i] ? "death-not-recorded" : "spurious-or-duplicate-failure") + ":intent:" + keyclass + ":" + ACT[plans[i].act] + "@" + WHERE[plans[i].where], "test " + std::to_string(i) + " " + plan_json(plans[i]) + " must add " + std::to_string(intent) + " failure(s); parent recorded " + std::to_string(cr.deltas[i]) + "; wait results " + trace);
+            if ((size_t) intent != got)
+                c.violation(std::string((size_t) intent > got ? "death-not-recorded" : "spurious-or-duplicate-failure") + ":intent:" + keyclass + ":" + ACT[plans[i].act] + "@" + WHERE[plans[i].where], "test " + std::to_string(i) + " " + plan_json(plans[i]) + " must add " + std::to_string(intent) + " failure(s); parent recorded " + std::to_string(got) + "; wait results " + trace + ctx);
         }
     }
-    if (cr.total_failures != total) c.violation(std::string("total-failures-wrong:") + keyclass, "sum expected " + std::to_string(total) + " got " + std::to_string(cr.total_failures));
-    if (cr.is_failure != (total > 0)) c.violation(std::string("overall-verdict-wrong:") + keyclass, std::string("isFailure=") + (cr.is_failure ? "true" : "false") + " with " + std::to_string(total) + " expected failures");
-    c.count("real_children_forked", (uint64_t) g_forks);
+    if (g_blind_stop_waits)
+        c.violation(std::string("stop-event-lost:wait-did-not-ask-for-stop-notifications:") + keyclass, std::to_string(g_blind_stop_waits) + " stop event(s) arrived at a wait whose options lacked WUNTRACED: the kernel would not have reported them, the stopped child would never be continued and the parent would wait forever" + ctx);
+    c.count("real_waits_after_a_reported_stop", (uint64_t) g_waits_after_stop);
+    c.count("real_waits_after_a_reported_stop_asking_for_stops", (uint64_t) g_waits_after_stop_asking);
+    if (cr.total_failures != total) c.violation(std::string("total-failures-wrong:") + keyclass, "sum expected " + std::to_string(total) + " got " + std::to_string(cr.total_failures) + ctx);
+    if (cr.is_failure != (total > 0)) c.violation(std::string("overall-verdict-wrong:") + keyclass, std::string("isFailure=") + (cr.is_failure ? "true" : "false") + " with " + std::to_string(total) + " expected failures" + ctx);
+}
+
+static void judge_real(vf::Ctx& c, const std::vector<Plan>& plans, const Cfg& cfg, const char* keyclass) {
+    PlanRun pr(plans, cfg);
+    if (cfg.via_shell_flag) c.count("cases_separate_process_requested_per_shell"); else c.count("cases_separate_process_requested_by_registry");
+    if (cfg.run_ignored) c.count("cases_with_run_ignored");
+    for (int pass = 0; pass < cfg.repeats; pass++) {
+        CaseRun cr = pr.run(false);
+        judge_pass(c, plans, cfg, cr, keyclass, pass);
+    }
 }
 
 // ---- section: signals 1..31 x crash point (exhaustive)
@@ -247,14 +381,15 @@ static void sec_signals(vf::Ctx& c) {
     int sig = (int) (c.idx % 31) + 1, where = (int) (c.idx / 31);
     std::vector<Plan> plans; Plan p; p.act = A_RAISE; p.arg = sig; p.where = where; plans.push_back(p);
     add_followers(c.rng, plans);
-    c.begin([=] { return vf::J().k("signal", sig).k("where", WHERE[where]).raw("plans", plans_json(plans)).str(); });
-    judge_real(c, plans, "signal");
+    Cfg cfg; decorate(c.rng, plans, cfg, true);
+    c.begin([=] { return vf::J().k("signal", sig).k("where", WHERE[where]).raw("plans", plans_json(plans)).raw("config", cfg_json(cfg)).str(); });
+    judge_real(c, plans, cfg, "signal");
     // the first child must have died of exactly that signal unless the default action is ignore/stop
-    bool ignored = sig == SIGCHLD || sig == SIGURG || sig == SIGWINCH || sig == SIGCONT;
+    bool ignored = default_ignored(sig);
     bool stops = sig == SIGSTOP || sig == SIGTSTP || sig == SIGTTIN || sig == SIGTTOU;
-    if (!g_wait_mark.empty()) {
-        size_t to = g_wait_mark.size() > 1 ? g_wait_mark[1] : g_waits.size();
-        if (to > 0) {
+    {
+        size_t from, to;
+        if (wait_range(0, from, to) && to > from) {
             const WaitRec& last = g_waits[to - 1];
             if (!ignored && !stops && !(last.ret > 0 && d_signaled(last.status) && (last.status & 0x7f) == sig)) c.count("signal_children_not_killed_by_the_raised_signal");
             if (!ignored && !stops) c.count("signal_deaths_observed");
@@ -273,8 +408,9 @@ static void sec_exit(vf::Ctx& c) {
     int where = (int) c.rng.below(W_N);
     std::vector<Plan> plans; Plan p; p.act = act; p.arg = status; p.where = where; plans.push_back(p);
     add_followers(c.rng, plans);
-    c.begin([=] { return vf::J().k("exit_status", status).k("via", ACT[act]).k("where", WHERE[where]).raw("plans", plans_json(plans)).str(); });
-    judge_real(c, plans, "exit");
+    Cfg cfg; decorate(c.rng, plans, cfg, true);
+    c.begin([=] { return vf::J().k("exit_status", status).k("via", ACT[act]).k("where", WHERE[where]).raw("plans", plans_json(plans)).raw("config", cfg_json(cfg)).str(); });
+    judge_real(c, plans, cfg, "exit");
     if (status != 0) c.nontrivial("exit" + std::to_string(status) + ACT[act] + WHERE[where]);
 }
 
@@ -301,8 +437,11 @@ static void sec_misc(vf::Ctx& c) {
         plans.push_back(p);
         sig += std::string(ACT[p.act]) + std::to_string(p.arg) + WHERE[p.where] + ACT[p.after] + ";";
     }
-    c.begin([=] { return vf::J().raw("plans", plans_json(plans)).str(); });
-    judge_real(c, plans, "mixed");
+    Cfg cfg; decorate(c.rng, plans, cfg, false);
+    for (const Plan& p : plans) sig += p.ignored ? (cfg.run_ignored ? "R" : "I") : "T";
+    sig += cfg.via_shell_flag ? "s" : "r"; sig += std::to_string(cfg.repeats);
+    c.begin([=] { return vf::J().raw("plans", plans_json(plans)).raw("config", cfg_json(cfg)).str(); });
+    judge_real(c, plans, cfg, "mixed");
     c.nontrivial(sig);
 }
 
@@ -317,7 +456,7 @@ static volatile sig_atomic_t g_alarms;
 static void on_alarm(int) { g_alarms++; }
 static int g_storm_interval_us; static int g_storm_child = -1; static long g_alarms_at_first_end = -1;
 static int storm_fork() {
-    g_wait_mark.push_back(g_waits.size()); g_forks++;
+    g_wait_mark.push_back(ForkRec{ g_waits.size(), -1 }); g_forks++; g_stop_seen_in_test = false;
     int pid = real_fork();
     if (pid > 0 && g_storm_child < 0) {
         g_storm_child = pid;
@@ -348,7 +487,7 @@ static void sec_real_eintr(vf::Ctx& c) {
     TestRegistry reg; reg.setCurrentRegistry(&reg);
     for (size_t i = plans.size(); i-- > 0;) { names.push_back("t" + std::to_string(i)); PlanShell* sh = new PlanShell("G", names.back().c_str()); pm[sh] = plans[i]; shells.push_back(sh); reg.addTest(sh); }
     reg.setRunTestsInSeperateProcess();
-    g_waits.clear(); g_wait_mark.clear(); g_forks = 0; g_alarms = 0; g_storm_child = -1; g_alarms_at_first_end = -1;
+    reset_pass_records(); g_alarms = 0; g_storm_child = -1; g_alarms_at_first_end = -1;
     struct sigaction sa, old; memset(&sa, 0, sizeof sa); sa.sa_handler = on_alarm; sa.sa_flags = 0; sigaction(SIGALRM, &sa, &old);
     real_fork = PlatformSpecificFork; real_waitpid = PlatformSpecificWaitPid;
     PlatformSpecificFork = storm_fork; PlatformSpecificWaitPid = rec_waitpid;
@@ -367,7 +506,7 @@ static void sec_real_eintr(vf::Ctx& c) {
     for (PlanShell* sh : shells) delete sh;
     g_plans = nullptr;
     // what the seam saw for the first test
-    size_t from = g_wait_mark.empty() ? 0 : g_wait_mark[0], to = g_wait_mark.size() > 1 ? g_wait_mark[1] : g_waits.size();
+    size_t from = g_wait_mark.empty() ? 0 : g_wait_mark[0].from, to = g_wait_mark.size() > 1 ? g_wait_mark[1].from : g_waits.size();
     long eintr_seen = 0; bool final_status = false;
     for (size_t i = from; i < to; i++) { if (g_waits[i].ret < 0 && g_waits[i].err == EINTR) eintr_seen++; else if (g_waits[i].ret > 0) final_status = true; }
     long alarms = g_alarms_at_first_end >= 0 ? g_alarms_at_first_end : (long) g_alarms;
@@ -422,7 +561,7 @@ static Item terminal(vf::Rng& r, std::string& cls) {
 }
 
 static bool s_fork_fails; static int s_forkcount;
-static int first_fork_may_fail_stub() { g_wait_mark.push_back(g_waits.size()); g_forks++; return (s_forkcount++ == 0 && s_fork_fails) ? -1 : (int) getpid(); }
+static int first_fork_may_fail_stub() { g_wait_mark.push_back(ForkRec{ g_waits.size(), -1 }); g_forks++; g_stop_seen_in_test = false; return (s_forkcount++ == 0 && s_fork_fails) ? -1 : (int) getpid(); }
 
 static void run_script_case(vf::Ctx& c, const std::vector<Item>& script, bool fork_fails, int followers, const std::string& cls) {
     int giveup_failures = 0;
@@ -451,14 +590,14 @@ static void run_script_case(vf::Ctx& c, const std::vector<Item>& script, bool fo
         TestRegistry reg; reg.setCurrentRegistry(&reg);
         for (size_t i = plans.size(); i-- > 0;) { names.push_back("t" + std::to_string(i)); PlanShell* s = new PlanShell("G", names.back().c_str()); shells.push_back(s); reg.addTest(s); }
         reg.setRunTestsInSeperateProcess();
-        g_waits.clear(); g_wait_mark.clear(); g_forks = 0;
+        reset_pass_records();
         real_fork = PlatformSpecificFork; real_waitpid = PlatformSpecificWaitPid;
         PlatformSpecificFork = first_fork_may_fail_stub; PlatformSpecificWaitPid = scr_waitpid;
         {
             RecOutput out; TestResult res(out);
             reg.runAllTests(res);
             size_t prev = 0;
-            for (size_t f : out.failures_at_end) { cr.deltas.push_back(f - prev); prev = f; }
+            for (size_t f : out.failures_at_end) { cr.deltas.push_back((long) (f - prev)); prev = f; }
             cr.total_failures = res.getFailureCount(); cr.run_count = res.getRunCount(); cr.is_failure = res.isFailure(); cr.ended = out.failures_at_end.size();
         }
         PlatformSpecificFork = real_fork; PlatformSpecificWaitPid = real_waitpid;
@@ -470,7 +609,7 @@ static void run_script_case(vf::Ctx& c, const std::vector<Item>& script, bool fo
     size_t n = plans.size();
     if (cr.ended != n || cr.run_count != n || (size_t) g_forks != n)
         c.violation("later-tests-not-run:scripted:" + cls, "tests=" + std::to_string(n) + " ended=" + std::to_string(cr.ended) + " forks=" + std::to_string(g_forks));
-    size_t first = cr.deltas.empty() ? 999 : cr.deltas[0];
+    size_t first = cr.deltas.empty() ? 999 : (size_t) cr.deltas[0];
     if (first != want.failures)
         c.violation(std::string(first < want.failures ? "event-not-recorded" : "spurious-or-duplicate-failure") + ":scripted:" + cls, "script " + script_json(script) + (fork_fails ? " fork=-1" : "") + " expected " + std::to_string(want.failures) + " failure(s) for the test, got " + std::to_string(first));
     for (size_t i = 1; i < cr.deltas.size(); i++) if (cr.deltas[i] != 0) c.violation("follower-blamed:scripted:" + cls, "a normally completing follower got " + std::to_string(cr.deltas[i]) + " failure(s)");
@@ -479,8 +618,14 @@ static void run_script_case(vf::Ctx& c, const std::vector<Item>& script, bool fo
     else if ((size_t) g_calls != want_calls) c.violation("waitpid-call-count:" + cls, "waitpid called " + std::to_string(g_calls) + " times, expected " + std::to_string(want_calls) + " for script " + script_json(script));
     if ((int) g_sigcont != want.conts) c.violation("sigcont-count:" + cls, "stop events in script: " + std::to_string(want.conts) + ", SIGCONT deliveries: " + std::to_string((int) g_sigcont));
     if (cr.is_failure != (want.failures > 0)) c.violation("overall-verdict-wrong:scripted:" + cls, "isFailure mismatch");
+    // every stop of the script must arrive at a wait that asked for stop notifications: a child that stops k times is recorded k times
+    if (g_blind_stop_waits)
+        c.violation("stop-event-lost:wait-did-not-ask-for-stop-notifications:scripted:" + cls, std::to_string(g_blind_stop_waits) + " of the " + std::to_string(want.conts) + " stop event(s) of script " + script_json(script) + " arrived at a wait whose options lacked WUNTRACED: the kernel would not have reported them, the stopped child would never be continued and the parent would wait forever");
     c.count("scripted_waitpid_calls", (uint64_t) g_calls);
     c.count("scripted_stop_events", (uint64_t) want.conts);
+    if (want.conts > 1) c.count("scripted_children_stopped_more_than_once");
+    c.count("scripted_waits_after_a_reported_stop", (uint64_t) g_waits_after_stop);
+    c.count("scripted_waits_after_a_reported_stop_asking_for_stops", (uint64_t) g_waits_after_stop_asking);
 }
 
 // EINTR^k followed by each terminal class: complete for k = 0..40
@@ -493,7 +638,9 @@ static void sec_eintr(vf::Ctx& c) {
     case 1: s.push_back(Item{ 2, st_exited(3) }); cls = "eintr+exitN"; break;
     case 2: s.push_back(Item{ 2, st_signaled(11, true) }); cls = "eintr+signaled"; break;
     case 3: s.push_back(Item{ 1, ECHILD }); cls = "eintr+errno"; break;
-    default: s.push_back(Item{ 2, st_stopped(19) }); s.push_back(Item{ 2, st_exited(0) }); cls = "eintr+stopped"; break;
+    case 4: s.push_back(Item{ 2, st_stopped(19) }); s.push_back(Item{ 2, st_exited(0) }); cls = "eintr+stopped"; break;
+    default:      // a child that stops twice, the interrupted waits between the two stops
+        s.insert(s.begin(), Item{ 2, st_stopped(SIGSTOP) }); s.push_back(Item{ 2, st_stopped(SIGTSTP) }); s.push_back(Item{ 2, st_exited(0) }); cls = "stopped+eintr+stopped"; break;
     }
     int followers = (int) c.rng.below(3);
     c.begin([=] { return vf::J().k("eintr_run", k).k("class", cls).raw("script", script_json(s)).k("followers", followers).str(); });
@@ -531,12 +678,13 @@ int main(int argc, char** argv) {
     // "raise(sig) kills the child" does not depend on how the check was launched.
     for (int sgn = 1; sgn < 32; sgn++) if (sgn != SIGKILL && sgn != SIGSTOP) signal(sgn, SIG_DFL);
     { sigset_t none; sigemptyset(&none); sigprocmask(SIG_SETMASK, &none, nullptr); }
+    g_parent_pid = (int) getpid();
     std::vector<vf::Section> S = {
         { "real_signals_x_crashpoints", 31 * W_N, 31 * W_N, sec_signals, true },
         { "real_exit_statuses", 40, 512, sec_exit, false },
         { "real_checks_crashes_stops", 150, 3000, sec_misc, false },
         { "real_eintr_storm", 8, 60, sec_real_eintr, false },
-        { "scripted_eintr_runs", 41 * 5, 41 * 5, sec_eintr, true },
+        { "scripted_eintr_runs", 41 * 6, 41 * 6, sec_eintr, true },
         { "scripted_fork_wait_sequences", 2000, 50000, sec_scripts, false },
     };
     return vf::harness_main(argc, argv, S);
